@@ -143,6 +143,21 @@ func judge(c Case, w *vkit.W) {
 		}
 		w.RetainBytes(c, "MarshalText", b, wantDef)
 		roundTrip("MarshalText", string(b), c.Default)
+	case "failing-formatter": // replay of phase B2
+		old := roman.Formatter
+		roman.Formatter = func(buf []byte, n roman.Number, f roman.Format) ([]byte, error) {
+			return nil, errors.New("formatter refused")
+		}
+		defer func() { roman.Formatter = old }()
+		for _, v := range []struct {
+			verb string
+			sub  int
+		}{{"%s", c.Default}, {"%v", c.Default}, {"%R", 0}, {"%r", subLower}, {"%L", subLong}, {"%l", subLong | subLower}} {
+			want := ref.RomanNumeral(c.N, refFlags(v.sub))
+			if got := fmt.Sprintf(v.verb, n); got != want {
+				w.Fail(c, "not-canonical", fmt.Sprintf("with a failing Formatter, Sprintf(%q, %d) under DefaultFormat subset %#x = %q want %q", v.verb, c.N, c.Default, got, want))
+			}
+		}
 	default:
 		w.Fail(c, "bad-case", "unknown path "+c.Path)
 	}
@@ -257,6 +272,39 @@ func TestCheck(t *testing.T) {
 		}
 	})
 	r.Exhaustive(fmt.Sprintf("methods (MarshalText, String, %%s %%v %%R %%r %%L %%l, UnmarshalText): every n < %d x every DefaultFormat subset", nMeth))
+
+	// Phase B2: with a package-level Formatter that fails, String and the verbs fall back to the default formatter (documented
+	// for String) and must still produce the canonical numeral of the flags they stand for.
+	r.Phase("B2: String and the verbs with a failing package-level Formatter, every DefaultFormat", func() {
+		old := roman.Formatter
+		defer func() { roman.Formatter = old }()
+		roman.Formatter = func(buf []byte, n roman.Number, f roman.Format) ([]byte, error) {
+			return nil, errors.New("formatter refused")
+		}
+		for def := 0; def < 128; def++ {
+			restore := configure(def, 128)
+			r.Serial(func(w *vkit.W) {
+				for _, n := range []uint64{0, 4, 9, 14, 49, 94, 444, 949, 999, 1994, 3999, 4949} {
+					c := Case{N: n, Default: def, Limit: 128, Path: "failing-formatter"}
+					num := roman.Number(n)
+					for _, v := range []struct {
+						verb string
+						sub  int
+					}{{"%s", def}, {"%v", def}, {"%R", 0}, {"%r", subLower}, {"%L", subLong}, {"%l", subLong | subLower}} {
+						want := ref.RomanNumeral(n, refFlags(v.sub))
+						if got := fmt.Sprintf(v.verb, num); got != want {
+							w.Fail(c, "not-canonical", fmt.Sprintf("with a failing Formatter, Sprintf(%q, %d) under DefaultFormat subset %#x = %q want %q", v.verb, n, def, got, want))
+						}
+					}
+					if got, want := num.String(), ref.RomanNumeral(n, refFlags(def)); got != want {
+						w.Fail(c, "not-canonical", fmt.Sprintf("with a failing Formatter, String(%d) under DefaultFormat subset %#x = %q want %q", n, def, got, want))
+					}
+					w.Eval(n > 0)
+				}
+			})
+			restore()
+		}
+	})
 
 	r.Phase("C: rapid (n, flags, DefaultFormat, limit)", func() {
 		r.Rapid(t, "rapid-roman", 0, r.Pick(5000, 100000), func(rt *rapid.T, w *vkit.W) vkit.RapidCase {
